@@ -1,13 +1,20 @@
-"""C14 correspondence: reverse complement and spelled sequence, model vs gfapy."""
+"""C14 correspondence: reverse complement and spelled sequence, and the linear paths of whole graphs
+(GfaModel/LinearPaths.lean vs Gfa.linear_paths / Gfa.linear_path, exact order and orientation), model vs gfapy."""
 from harness import lib
 from harness.lib import op
+from harness.props import _graphgen as G
+from harness.corr.graphcorr import supported_add
 
 
 def budget(tier):
-    return 300 if tier == "quick" else 10000
+    return 600 if tier == "quick" else 12000
 
 
 def gen_case(rng, tier, i):
+    if rng.random() < 0.5:
+        c = G.gen_graph(rng, tier)
+        c["kind"] = "lpaths"
+        return c
     if rng.random() < 0.4:
         alpha = "ACGTacgtNnRYKMSWBVHDuU.-=xZ"
         return {"kind": "rc", "s": "".join(rng.choice(alpha) for _ in range(rng.randint(1, 8)))}
@@ -25,8 +32,39 @@ def nontrivial(case):
     return True
 
 
+def _show(path):
+    return ",".join("%s:%s" % (se.name, se.end_type) for se in path)
+
+
+def lpaths_ops(case):
+    gfapy = lib.import_gfapy()
+    v = case["version"]
+    if not all(supported_add(l) for l in case["lines"]):
+        return [], []
+    try:
+        g = gfapy.Gfa(version=v, vlevel=1)
+        for l in case["lines"]:
+            g.add_line(l)
+    except gfapy.Error:
+        return [], []
+    # the model is given the lines in the library's own order (segments in registry order)
+    ops = [op("g.new", v)] + [op("g.add", str(l)) for l in g.lines if l.record_type in "SLCPEGFOU"]
+    exp = ["ok"] * len(ops)
+    r = lib.outcome(g.linear_paths)
+    if r[0] != "ok":
+        return [], []
+    ops.append(op("g.lpaths")); exp.append("ok " + ";".join(_show(p) for p in r[1]))
+    for sn in list(g.segment_names)[:6]:
+        r = lib.outcome(g.linear_path, sn)
+        if r[0] == "ok":
+            ops.append(op("g.lpath", sn)); exp.append("ok " + _show(r[1]))
+    return ops, exp
+
+
 def model_ops(case):
     gfapy = lib.import_gfapy()
+    if case["kind"] == "lpaths":
+        return lpaths_ops(case)
     if case["kind"] == "rc":
         r = lib.outcome(gfapy.sequence.rc, case["s"])
         return [op("seq.rc", case["s"])], ["ok " + r[1] if r[0] == "ok" else "gerr " + r[1]]
